@@ -83,15 +83,25 @@ func init() {
 }
 
 func runHistx(ctx *core.Ctx, tier string) {
-	maxDepth, bound := 3, 1
+	// passes: (history depth, deviation budget)
+	passes := [][2]int{{3, 1}}
 	if tier == "thorough" {
-		maxDepth, bound = 6, 2
+		passes = [][2]int{{4, 1}, {2, 2}}
 	}
-	if shard, nshards := shardInfo(); nshards > 1 {
-		histShard(ctx, tier, maxDepth, bound, shard, nshards)
-		return
+	shard, nshards := shardInfo()
+	var rules []string
+	var trans, nontriv int64
+	for _, p := range passes {
+		histShard(ctx, tier, p[0], p[1], shard, nshards)
+		rules = append(rules, ctx.Rep.Rule)
+		trans += ctx.Rep.Trans
+		nontriv += ctx.Rep.Nontrivial
 	}
-	histShard(ctx, tier, maxDepth, bound, 0, 1)
+	if len(passes) > 1 {
+		ctx.Rep.Rule = strings.Join(rules, " || SECOND PASS: ")
+	}
+	ctx.Rep.Trans, ctx.Rep.Validated, ctx.Rep.Evals, ctx.Rep.Nontrivial = trans, trans, trans, nontriv
+	ctx.Rep.Extra["passes_depth_deviations"] = passes
 }
 
 func shardInfo() (int, int) {
@@ -113,9 +123,33 @@ func histShard(ctx *core.Ctx, tier string, maxDepth, bound, shard, nshards int) 
 	zs.SetController(ctl)
 	zs.OwnMapOrder = true // every owned map iteration order is a choice (rotation of the sorted order)
 	// solo outcomes in the fresh-process state
-	for i := range w.calls {
+	w.solo = w.soloOutcomes()
+	// residual state: what a call leaves behind that emptying the pools and caches does not remove
+	// (reported, not judged: the per-transition oracle decides whether it matters)
+	if shard == 0 {
 		zs.Reset()
-		w.solo = append(w.solo, w.outcome(i))
+		prev := globalsDump()
+		var residual []string
+		for _, i := range w.menu {
+			w.outcome(i)
+			zs.Reset()
+			d := globalsDump()
+			if d != prev {
+				a, b := strings.Split(prev, "\n"), strings.Split(d, "\n")
+				for k := range a {
+					if k < len(b) && a[k] != b[k] {
+						name := a[k]
+						if j := strings.Index(name, "="); j > 0 {
+							name = name[:j]
+						}
+						residual = append(residual, w.calls[i].Name+" -> variable "+name+" (group 0=v5 1=codec 2=legacy)")
+						break
+					}
+				}
+			}
+			prev = d
+		}
+		ctx.Rep.Extra["state_left_outside_pools_and_caches"] = residual
 	}
 	if bad := w.inputsIntact(); len(bad) > 0 {
 		for _, b := range bad {
@@ -134,10 +168,10 @@ func histShard(ctx *core.Ctx, tier string, maxDepth, bound, shard, nshards int) 
 	}
 	zs.Reset()
 	ctx.AddState(globalsDump())
-	trans := ctx.Counter("transitions")
+	trans := new(int64)
 	ctx.Rep.Rule = fmt.Sprintf("BFS over call histories: menu of %d calls over ONE shared set of decoded Patch values and input buffers (Apply on object/array documents, ApplyIndent, copy limit hit, EscapeHTML off, failing test, malformed document, scalar root, inapplicable patch, DecodePatch ok/malformed/invalid/non-array, MergePatch x4 incl. malformed, MergeMergePatches, CreateMergePatch x4 incl. rejected/malformed, Equal x3 incl. malformed, legacy Apply and MergePatch); "+
 		"every Pool.Get answer is a choice (default LIFO; deviations: any other pooled object or a fresh one) and so is the order of every map iteration in the library packages (default sorted; deviations: its rotations), at most %d deviation(s) per history; state (computed for every history shorter than the depth bound) = generic dump of every package-level variable of the three library packages (pools with all private fields of recycled objects, type caches); dedup on the dump, successor = reset + replay shortest path + one call; depth <= %d or closure. "+
-		"Oracle per transition: outcome == solo outcome from the fresh-process state (error text / exact bytes for Apply, ApplyIndent, CreateMergePatch, Equal / JSON value otherwise); every shared buffer and Patch identical to its snapshot; every byte slice returned by an earlier call of the history still holds the bytes it was returned with. non-trivial = transitions whose history has >= 2 calls", len(w.menu), bound, maxDepth)
+		"Oracle per transition: outcome == the outcome of the same call made alone in a brand-new process (error text / exact bytes for Apply, ApplyIndent, CreateMergePatch, Equal / JSON value otherwise); every shared buffer and Patch identical to its snapshot; every byte slice returned by an earlier call of the history still holds the bytes it was returned with. non-trivial = transitions whose history has >= 2 calls", len(w.menu), bound, maxDepth)
 	ctx.Rep.Assume = append(ctx.Rep.Assume,
 		"state dump omits slice capacity and elements beyond len (see DESIGN.md E5); equal dumps are taken to have equal futures",
 		"the library's only process-wide mutable state is in package-level variables of its own packages (checked by the generated accessor, which lists every one) and in the shimmed pools/caches; standard-library internals (reflect, strconv caches) are trusted to be result-neutral",
@@ -266,10 +300,7 @@ func histReplayCase(ctx *core.Ctx, raw json.RawMessage) {
 	w := newAPIWorld()
 	ctl := &seqCtl{}
 	zs.SetController(ctl)
-	for i := range w.calls {
-		zs.Reset()
-		w.solo = append(w.solo, w.outcome(i))
-	}
+	w.solo = w.soloOutcomes()
 	if len(hc.Path) == 0 {
 		return
 	}
